@@ -27,11 +27,14 @@ _OV = ["contracts.overlay"]
 _LC = ["contracts.lifecycle"]
 _TF = ["contracts.transform"]
 _SP = ["contracts.selparse"]
+_MO = ["contracts.more"]
 CONTRACT_MODULES = {
-    "C12": ["contracts.c12"] + _RT,
-    "C04": ["contracts.c12"] + _RT + _TF + _LC + _SP,
-    "C02": _RT + _OV + _IN + _TF + _LC, "C16": _RT + _TF + ["contracts.tags"], "C01": _RT + _TF + ["contracts.tags"], "C06": _TF,
-    "C03": _OV + _IN + ["contracts.lemmas"], "C07": _OV + _IN + ["contracts.lemmas"], "C11": _IN + _OV + _TF + ["contracts.tags"] + _SP + _LC, "C05": _OV + _LC, "C09": _OV, "C17": _OV + _LC, "C10": _OV + _LC + _TF + _SP, "C14": _LC + ["contracts.refs"], "C18": _LC + _SP + ["contracts.refs"], "C15": _SP, "C13": _SP + ["contracts.c12", "contracts.refs"],
+    "C12": ["contracts.c12"] + _RT + _MO,
+    "C04": ["contracts.c12"] + _RT + _TF + _LC + _SP + _MO,
+    "C02": _RT + _OV + _IN + _TF + _LC + _MO, "C16": _RT + _TF + ["contracts.tags"] + _MO, "C01": _RT + _TF + ["contracts.tags"] + _MO, "C06": _TF + _MO,
+    "C03": _OV + _IN + ["contracts.lemmas"], "C07": _OV + _IN + ["contracts.lemmas"] + _MO, "C11": _IN + _OV + _TF + ["contracts.tags"] + _SP + _LC,
+    "C05": _OV + _LC + _TF + _MO, "C09": _OV, "C17": _OV + _LC + _MO, "C10": _OV + _LC + _TF + _SP,
+    "C14": _LC + ["contracts.refs"] + _TF + _MO, "C18": _LC + _SP + ["contracts.refs"] + _MO, "C15": _SP + _MO, "C13": _SP + ["contracts.c12", "contracts.refs"],
 }
 
 UNIT_WALL_BUDGET = {"quick": 150, "thorough": 600}
@@ -166,6 +169,7 @@ def main(argv):
     faults = []
     samples = []
     functions = {}
+    executed_all = set()
     bounded = []
     disagreements = 0
     cvc5_checked = 0
@@ -178,6 +182,8 @@ def main(argv):
         solver_time += r["stats"].get("solver_time_s", 0)
         for t, h in r["targets"].items():
             functions[t] = h
+        for q in r["stats"].get("executed", []):
+            executed_all.add(q)
         if r["error"]:
             if r["error"].startswith("crash"):
                 faults.append(f"{r['unit']}: {r['error']}")
@@ -289,7 +295,6 @@ def main(argv):
                 reproduced = False
         if script and not reproduced and u is not None and getattr(u, "replay_decides", False):
             # the counterexample is a shape the real front end cannot produce (or the engine was imprecise): undecided
-            print(f"UNDECIDED unit={u.name} obligation={o['name']} reason=counterexample did not replay natively ({path})")
             undecided.append({"unit": u.name, "obligation": o["name"], "reason": "counterexample did not replay natively"})
             continue
         tail = "" if reproduced else " no-failing-input-found"
@@ -329,6 +334,7 @@ def main(argv):
             "by_backend": by_backend,
             "solver_time_s": round(solver_time, 3),
             "functions_under_contract": [{"name": k, "sha256": v} for k, v in sorted(functions.items())],
+            "functions_executed_symbolically": sorted(q for q in executed_all if q.startswith(("ptera", "giving", "codefind", "pystd"))),
             "units": [{"unit": r["unit"], "mode": UNITS[r["unit"]].mode, "paths": r["stats"]["paths"], "obligations": len(r["obligations"]),
                        "wall_s": round(r["wall_s"], 2), "inlined_callees": UNITS[r["unit"]].inlined, "doc": UNITS[r["unit"]].doc[:300]} for r in results],
             "bounded": bounded,
